@@ -333,10 +333,13 @@ def record_run(run: dict, mutate=None):
         # between steps: the public voltage setter moves some still-refractory elements to / above threshold
         pk = probe.poke_refractory(rng) if t > 0 else []
         x = draw_inputs(rng, nrng, probe, ms)
-        step = probe.step(x)
+        # an adapting neuron is stepped with its adaptations FROZEN now and then (adapt=False, or eval mode with
+        # adapt=None): the threshold in force stays equilibrium + the adaptations accumulated so far (seeded C03-m4)
+        freeze = rng.choice(["false", "eval"]) if run["adapt"] and t >= 2 and rng.random() < 0.3 else None
+        step = probe.step(x, freeze=freeze)
         if step is None:
             break
-        inputs.append({"x": x.reshape(-1).tolist(), "voltage_set_before": pk})
+        inputs.append({"x": x.reshape(-1).tolist(), "voltage_set_before": pk, "frozen": freeze})
         for e, ev in enumerate(step):
             raws[e].append(ev.pop("raw"))
             evs[e].append(ev)
